@@ -14,6 +14,8 @@ import (
 // content delivered in two ways must be told the same way).
 type Recorder struct {
 	Log   []string
+	Keys  []string // the key strings as handed over (retained, not copied)
+	Strs  []string // the string values as handed over (retained, not copied)
 	depth int
 }
 
@@ -32,6 +34,7 @@ func (s *recState) add(ctx gotype.UnfoldCtx, what string) error {
 func (s *recState) OnNil(ctx gotype.UnfoldCtx) error          { return s.add(ctx, "nil") }
 func (s *recState) OnBool(ctx gotype.UnfoldCtx, b bool) error { return s.add(ctx, fmt.Sprint("bool:", b)) }
 func (s *recState) OnString(ctx gotype.UnfoldCtx, v string) error {
+	s.r.Strs = append(s.r.Strs, v)
 	return s.add(ctx, fmt.Sprintf("string:%q", v))
 }
 func (s *recState) OnInt(ctx gotype.UnfoldCtx, i int64) error {
@@ -63,6 +66,7 @@ func (s *recState) OnObjectFinished(ctx gotype.UnfoldCtx) error {
 }
 func (s *recState) OnKey(ctx gotype.UnfoldCtx, k string) error {
 	s.r.Log = append(s.r.Log, fmt.Sprintf("key:%q", k))
+	s.r.Keys = append(s.r.Keys, k)
 	return nil
 }
 
@@ -102,6 +106,8 @@ func unfoldProc(to *Proc) (interface{}, func(*Proc, interface{}) error) {
 // Stateful: state unfolder registered as a function (Recorder is the Expander variant).
 type Stateful struct {
 	Log   []string
+	Keys  []string
+	Strs  []string
 	depth int
 }
 
